@@ -67,3 +67,41 @@ Proof.
     exists s2. cbn [mrun]. rewrite E1. cbn [bind]. split; [exact E2|]. split; [exact W2|].
     intros z. rewrite I2. cbn [hist_sem]. apply hist_sem_ext. exact I1.
 Qed.
+
+(* ---------------------------------------------------------------- which cells a mutator touches *)
+(* Remove: inside the receiver's own array only the cells from the position of x up to the old
+   last cell (exclusive) change; the array keeps its length (remove_m_spec). *)
+Theorem remove_m_frame : forall s x, wf s ->
+  let i := search_ints (view s) x in
+  firstn i (fst (remove_m s x)) = firstn i (fst s) /\
+  skipn (snd s - 1) (fst (remove_m s x)) = skipn (snd s - 1) (fst s).
+Proof.
+  intros [arr n] x [Hn Hs] i. unfold view in *. cbn [fst snd] in *. unfold remove_m.
+  set (a := firstn n arr) in *. fold i.
+  assert (Hla : length a = n) by (unfold a; rewrite firstn_length; lia).
+  destruct (nth_error a i) as [v|] eqn:En; [|split; reflexivity].
+  destruct (v =? x); [|split; reflexivity]. cbn [fst].
+  assert (Hi : (i < n)%nat) by (rewrite <- Hla; apply nth_error_Some; congruence).
+  assert (L1 : length (firstn i arr) = i) by (rewrite firstn_length; lia).
+  assert (L2 : length (skipn (S i) a) = (n - S i)%nat) by (rewrite skipn_length; lia).
+  split.
+  - rewrite firstn_app, L1, Nat.sub_diag. simpl firstn at 2. rewrite app_nil_r.
+    rewrite firstn_firstn. f_equal. lia.
+  - rewrite app_assoc. rewrite skipn_app. rewrite skipn_all2 by (rewrite app_length, L1, L2; lia).
+    rewrite app_length, L1, L2. replace (n - 1 - (i + (n - S i)))%nat with 0%nat by lia. reflexivity.
+Qed.
+
+(* Add: the new value lives in a freshly made array without spare capacity (tmp = make(n));
+   nothing of the receiver's old backing array is part of it, the old array is not written
+   (the model of Add has no write to it). *)
+Theorem add_m_fresh : forall s xs s', add_m s xs = Ret s' ->
+  fst s' = view s' /\ snd s' = length (fst s').
+Proof.
+  intros s xs s' H. unfold add_m in H. destruct (add (view s) xs) as [r| |]; try discriminate.
+  cbn [bind] in H. inversion H. subst s'. split; [symmetry; apply view_fresh|reflexivity].
+Qed.
+
+(* The spare capacity of the receiver is never read by Add: only the view matters. *)
+Theorem add_m_view_only : forall arr1 arr2 n1 n2 xs,
+  view (arr1, n1) = view (arr2, n2) -> add_m (arr1, n1) xs = add_m (arr2, n2) xs.
+Proof. intros arr1 arr2 n1 n2 xs H. unfold add_m. rewrite H. reflexivity. Qed.
